@@ -16,7 +16,8 @@ open Cppcheck.AstStore Cppcheck.Links Cppcheck.DumpXml
 
 /-- One call of `astOperand1`, `astOperand2` or the `astTop` cache setter keeps the design invariant
     (acyclic ∧ an operand's parent points back ∧ a child is listed by its parent ∧ op1 ≠ op2) — whether the
-    call returns or throws `InternalError` half-way. -/
+    call returns, throws `InternalError` half-way, or (in a store whose `n` does not bound the parent chains - never a reachable
+    one, see `setters_terminate`) the model's fuel runs out. -/
 theorem setters_preserve_inv (s : Store) (h : Inv s) (o : Op) (ho : o.viaOperands = true) : Inv (step s o).1 :=
   step_inv s o h ho
 
